@@ -784,6 +784,30 @@ fn cpu_ms() -> u64 {
     ts.tv_sec as u64 * 1000 + ts.tv_nsec as u64 / 1_000_000
 }
 
+pub fn options_for(src: &str) -> Opts {
+    let plain = Opts::plain();
+    match rng::fnv1a(src.as_bytes()) % 4 {
+        0 => plain,
+        1 => Opts {
+            bytemuck_vertex: true,
+            bytemuck_host: true,
+            serde: true,
+            ..plain
+        },
+        2 => Opts {
+            encase_host: true,
+            mvt: 1,
+            ..plain
+        },
+        _ => Opts {
+            bytemuck_host: true,
+            serde: true,
+            mvt: 2,
+            ..plain
+        },
+    }
+}
+
 pub fn measure(src: &str, validate: bool) -> Measured {
     let b = budget(src);
     let src = src.to_string();
@@ -799,7 +823,10 @@ pub fn measure(src: &str, validate: bool) -> Measured {
             });
             let backend2 = backend.clone();
             verif_hooks::install(Some(backend2 as Arc<dyn Backend>));
-            let mut options = Opts::plain();
+            // The derive / representation options come from a fixed menu, chosen by the source
+            // text itself (so a replay file needs nothing but the source): cost must not explode
+            // under any of them.
+            let mut options = options_for(&src2);
             options.validate = validate;
             let t0 = cpu_ms();
             let result = std::panic::catch_unwind(std::panic::AssertUnwindSafe(|| {
